@@ -5,7 +5,7 @@
 (* and the class/id lookups are exported for replay on real engines (and on *)
 (* engines reloaded from their serialized image, C08).                      *)
 (***************************************************************************)
-EXTENDS CosParse, TLC, Json
+EXTENDS CosParse, TLC, Json, Randomization
 
 CONSTANTS U, K
 VARIABLES stage, part, L,
@@ -67,8 +67,8 @@ HostsC17 == <<"a.com", "b.com">>
 ClassSetsStd == << {"a"}, {"a-b", "ab"}, {"a1", "a.b"}, {"é", "aé"}, {"A", "-a", "_"}, {"ng"}, {"a1b", "ab"}, {"x:y", "x:"}, {} >>
 IdSetsStd == << {"i"}, {"a"}, {":z"}, {} >>
 \* the parse universe uses the selectors '.x' and '#id > .x'
-ClassSets == IF U = "parse" THEN << {"x"}, {} >> ELSE ClassSetsStd
-IdSets == IF U = "parse" THEN << {"id"}, {} >> ELSE IdSetsStd
+ClassSets == IF U = "parse" THEN << {"x"}, {} >> ELSE IF U = "rand" THEN << {"x", "y"}, {"y"}, {} >> ELSE ClassSetsStd
+IdSets == IF U = "parse" THEN << {"id"}, {} >> ELSE IF U = "rand" THEN << {"i"}, {} >> ELSE IdSetsStd
 \* c17b: several complex rules sharing one leading class / id, with exceptions naming some of them
 PoolC17b == << HideR({}, ".a .b"), HideR({}, ".a > #i"), HideR({}, ".a:hover"), HideR({}, ".a"), HideR({}, "#i .q"), HideR({}, "#i > .a"),
                HideR({}, "#i"), UnhideR({H("a.com")}, ".a > #i"), UnhideR({H("a.com")}, ".a .b"), UnhideR({H("a.com")}, "#i .q"),
@@ -111,18 +111,34 @@ Bodies == {".x", "", " ", ".x ", " .x", "+js(sc1, x)", "+js()", "+js(sc1", "^scr
            ".x:remove-class('c')", ".x:remove-attr(href) ", "#id > .x", ".x:remove( )"}
 HostsParse == <<"a.com", "s.a.com", "b.com", "a.net">>
 
-Pool == CASE U = "c16" -> PoolC16 [] U = "c17" -> PoolC17 [] U = "c17b" -> PoolC17b [] U = "c18" -> PoolC18
-Hosts == CASE U = "parse" -> HostsParse [] U = "c16" -> HostsC16 [] U = "c17" -> HostsC17 [] U = "c17b" -> HostsC17 [] U = "c18" -> HostsC18
+\* universe "rand": K random lists of 4..12 rules drawn from the whole space of valid rules over a vocabulary of
+\* locations (hosts of three suffix kinds incl. an unlisted top-level label, entities, negations), selectors
+\* (simple / complex, class / id / neither) and every rule kind.  Odd compositions that no hand-made pool has.
+LocAtoms == {H("a.com"), H("s.a.com"), H("t.s.a.com"), H("b.com"), H("a.co.uk"), H("a.internal"), H("s.a.internal"), H("com"),
+             E("a"), E("s.a"), E("b"), NH("s.a.com"), NH("a.com"), NE("a"), NH("t.s.a.internal"), NH("s.a.co.uk")}
+LocSets == {S \in SUBSET LocAtoms : Cardinality(S) <= 2}
+RandSelectors == {".x", ".y", "#i", "div[ad]", ".x > .y", "#i .x", ".x.y"}
+ValidRule(r) == /\ ~(r.unhide /\ \E l \in r.locs : l.neg)
+                /\ (r.locs = {} => r.kind = "hide" /\ ~r.unhide)
+                /\ (r.kind = "js" /\ r.sel = "" => r.unhide)
+RuleSpace ==
+  { r \in ( { [C0 EXCEPT !.locs = ls, !.unhide = u, !.kind = "hide", !.sel = sl] : ls \in LocSets, u \in BOOLEAN, sl \in RandSelectors }
+         \cup { [C0 EXCEPT !.locs = ls, !.unhide = u, !.kind = k, !.sel = sl, !.arg = (IF k = "remove" THEN "" ELSE "v")] :
+                  ls \in LocSets, u \in BOOLEAN, k \in {"style", "remove", "remove-attr", "remove-class"}, sl \in {".x", "#i .x"} }
+         \cup { [C0 EXCEPT !.locs = ls, !.unhide = u, !.kind = "js", !.sel = a] : ls \in LocSets, u \in BOOLEAN, a \in {"sc1, x", "sc2", ""} } ) : ValidRule(r) }
+
+Pool == CASE U = "c16" -> PoolC16 [] U = "c17" -> PoolC17 [] U = "c17b" -> PoolC17b [] U = "c18" -> PoolC18 [] OTHER -> <<>>
+Hosts == CASE U = "parse" -> HostsParse [] U = "rand" -> HostsC16 [] U = "c16" -> HostsC16 [] U = "c17" -> HostsC17 [] U = "c17b" -> HostsC17 [] U = "c18" -> HostsC18
 Store == IF U = "c18" THEN StoreC18 ELSE StoreStd
-NetRules == IF U = "c16" THEN NetC16 ELSE <<>>
-Ghide(h) == U = "c16" /\ h \in GhideC16
+NetRules == IF U \in {"c16", "rand"} THEN NetC16 ELSE <<>>
+Ghide(h) == U \in {"c16", "rand"} /\ h \in GhideC16
 
 RECURSIVE IncSeqs(_, _, _)
 IncSeqs(lo, n, k) ==
   IF k = 0 THEN {<<>>}
   ELSE {<<>>} \cup UNION { {<<i>> \o s : s \in IncSeqs(i + 1, n, k - 1)} : i \in lo..n }
 
-NParts == IF U = "parse" THEN Len(LocTexts) ELSE Len(Pool)
+NParts == IF U = "parse" THEN Len(LocTexts) ELSE IF U = "rand" THEN K ELSE Len(Pool)
 ListsOf(p) == {[j \in 1..Len(s) |-> Pool[s[j]]] : s \in {<<p>> \o t : t \in IncSeqs(p + 1, Len(Pool), K - 1)}}
 
 Init == stage = "seed" /\ part \in 1..NParts /\ L = <<>> /\ raw = ""
@@ -131,6 +147,9 @@ Next == /\ stage = "seed" /\ stage' = "case" /\ part' = part
            THEN \E m \in Markers, b \in Bodies :
                   /\ raw' = LocTexts[part] \o "#" \o m \o "#" \o b
                   /\ L' = LET p == ParseCos(LocTexts[part], m, b) IN IF p.ok THEN <<p.r>> ELSE <<>>
+           ELSE IF U = "rand"
+           THEN /\ raw' = ""
+                /\ L' = SetToSeqC(RandomSubset(RandomElement(4..12), RuleSpace))
            ELSE L' \in ListsOf(part) /\ raw' = ""
 
 --------------------------------------------------------------------------
@@ -148,7 +167,7 @@ HostView(h) ==
    scripts_union |-> ScriptsUnion(L, Store, h),
    scripts_wire |-> Scripts([i \in DOMAIN L |-> [L[i] EXCEPT !.perm = {}]], Store, h),
    \* C17: lookups with the page's own exception set
-   classid |-> IF U \in {"c17", "c17b", "parse"}
+   classid |-> IF U \in {"c17", "c17b", "parse", "rand"}
                THEN [c \in DOMAIN ClassSets |-> [i \in DOMAIN IdSets |->
                        [classes |-> ClassSets[c], ids |-> IdSets[i],
                         expect |-> ClassIdLookup(L, ClassSets[c], IdSets[i], ex)]]]
